@@ -25,4 +25,13 @@ VARIANTS = [
     V("N-hash-term-label-field-derived", D + "features.py", "        return hash((self.term, self.value))", "        return hash((self.term.label, self.value))", None),
     V("N-rename-encoded", E, "        encoded = encoder.encode(tag)\n        if encoded is not None:\n            return encoded", "        hit = encoder.encode(tag)\n        if hit is not None:\n            return hit", None),
     V("N-if-not-none-store", E, "        index = encoder.encode(tag)\n        if index is None:\n            continue\n        encoded[index] = 1", "        index = encoder.encode(tag)\n        if index is not None:\n            encoded[index] = 1", None),
+    # wave 6
+    V("key-through-label-helper", E, "            (tag.term, tag.value): i for i, tag in enumerate(tags)", "            (data.key_from_term(tag.term), tag.value): i for i, tag in enumerate(tags)", "R19.1",
+      also=((E, "        return self._mapping.get((tag.term, tag.value))", "        return self._mapping.get((data.key_from_term(tag.term), tag.value))"),)),
+    V("score-rounded-by-validator(G.5)", D + "predicted_tags.py", "from pydantic import BaseModel, Field\n", "from pydantic import BaseModel, Field, field_validator\n", "G.5",
+      also=((D + "predicted_tags.py", "    score: float = Field(", "    @field_validator(\"score\")\n    def _round(cls, v):\n        return round(v, 6)\n\n    score: float = Field("),)),
+    V("N-key-tuple-reordered", E, "            (tag.term, tag.value): i for i, tag in enumerate(tags)", "            (tag.value, tag.term): i for i, tag in enumerate(tags)", None,
+      also=((E, "        return self._mapping.get((tag.term, tag.value))", "        return self._mapping.get((tag.value, tag.term))"),)),
+    V("N-checking-validator-only", D + "predicted_tags.py", "from pydantic import BaseModel, Field\n", "from pydantic import BaseModel, Field, field_validator\n", None,
+      also=((D + "predicted_tags.py", "    score: float = Field(", "    @field_validator(\"score\")\n    def _same(cls, v):\n        return v\n\n    score: float = Field("),)),
 ]
